@@ -61,8 +61,12 @@ def run_variant(prop, v, repo="/repo"):
         if why:
             return {"name": v["name"], "kind": v["kind"], "status": "skipped", "reason": why}
         env = dict(os.environ, VERIF_REPO=d, VERIF_TIER="quick")
-        r = subprocess.run([sys.executable, "-m", "rules.main", prop, "--tier", "quick"], cwd=VERIF, env=env,
-                           stdout=subprocess.PIPE, stderr=subprocess.STDOUT, text=True)
+        evp0 = os.path.join(VERIF, ".cache", "scratch-evidence", os.path.basename(d), prop + ".json")
+        for attempt in range(2):
+            r = subprocess.run([sys.executable, "-m", "rules.main", prop, "--tier", "quick"], cwd=VERIF, env=env,
+                               stdout=subprocess.PIPE, stderr=subprocess.STDOUT, text=True)
+            if os.path.exists(evp0) or "could not be analysed" in r.stdout:
+                break   # otherwise the run itself crashed (e.g. a fact set evicted under heavy concurrency): once more
         out = r.stdout
         if "could not be analysed" in out:
             return {"name": v["name"], "kind": v["kind"], "status": "does-not-compile", "reason": out[-400:]}
